@@ -158,6 +158,8 @@ def sprintfOp (env : Array Dec) (xs hs : String) : Step :=
   | some (_, x), some (fl, verb) =>
     let out := format x fl verb
     { env := env, extra := strToHex out, skipExtra := true,
+      -- fmt turns `%+v` into the plusV flag (no sign for floats), which a Formatter cannot tell from `+`
+      known := if verb == 'v' && fl.plus && !x.neg then some "format-plus-flag-with-verb-v" else none,
       spec := andSpec (fun _ e _ =>
         match e.splitOn " " with
         | [h, sc] =>
